@@ -92,6 +92,12 @@ Definition expected_guards_dnsforward : table :=
        GIf "" "if pref == (netip.Prefix{}) || q.Qtype != dns.TypePTR" "return resultCodeSuccess" false;
        (* run_stage StDHCPAddrs: assoc_addr c_dhcp_addrs = None | Some [] => (RcSuccess, p) *)
        GIf "" "if host == """"" "return resultCodeSuccess" false;
+       (* /repo c41b419 (C05, fix draft 26): a lease name that is no domain name once the
+          local suffix is appended is treated as nameless.  Not a branch of run_stage
+          StDHCPAddrs: the lease names of c_dhcp_addrs are valid domain names with the
+          suffix (harness configuration; the guard itself is exercised by
+          harness/dnsforward/zz_verif_C05lease_test.go) *)
+       GIf "" "if err := netutil.ValidateDomainName(target); err != nil" "return resultCodeSuccess" false;
        (* run_stage StDHCPAddrs: set_resp p (PTR record) *)
        GSetRes "" "pctx.Res = resp";
        (* run_stage StDHCPAddrs: (RcSuccess, set_resp p …) *)
@@ -155,8 +161,9 @@ Definition expected_guards_dnsforward : table :=
        GRet "" "return res, err" ]);
 
     ("dnsforward.isRewrittenCNAME",
-     [ (* is_rewritten_cname *)
-       GRet "" "return res.Reason.In(filtering.Rewritten, filtering.RewrittenRule, filtering.FilteredSafeSearch) && res.CanonName != """" && len(res.IPList) == 0" ]);
+     [ (* is_rewritten_cname, with negb (r_canon_rewritten r) since /repo 2e58a5d (C06): a
+          canonical name that the legacy rewrites cover themselves is not resolved upstream *)
+       GRet "" "return res.Reason.In(filtering.Rewritten, filtering.RewrittenRule, filtering.FilteredSafeSearch) && res.CanonName != """" && len(res.IPList) == 0 && !res.CanonNameRewritten" ]);
 
     ("dnsforward.Server.filterDNSResponse",
      [ (* run_stage StFilterAfter, last branch: negb (st_filtering st) => (RcSuccess, p) *)
